@@ -52,7 +52,7 @@ class C07(Check):
             parties.append(actors.Editor(rs["edit%d" % k], cfg, b))
         parties.append(actors.Operator(rs["oper"], {"dirty_p": 0.0}))
         weights = {"watcher": 3.0, "importer": 1.0, "editor": 1.0, "operator": 0.1}
-        nsteps = r.choice([4, 8, 12, 25, 50])
+        nsteps = r.choice([4, 8, 12, 25, 50] + ([100, 200] if tier == "thorough" else []))
         steps += actors.schedule(rs["sched"], parties, weights, nsteps)
         return {"backend": backend, "steps": steps, "lat": lat}
 
